@@ -16,7 +16,7 @@ import (
 
 // VerifH_C11_relay_outline
 //
-//verif:harness prop=C11 tier=quick replay=interp go=skip require=added,banned,resync bounds="outline of a block with 1..2 v2 transactions on the tip / a known side block / an unknown parent; each transaction in the node's pool or missing; the peer answers the request for missing transactions correctly, with other transactions, with nothing, or fails; work sufficient or not; AddBlocks accepts or rejects"
+//verif:harness prop=C11 tier=quick replay=interp go=skip require=added,banned,resync bounds="outline of a block with 1..2 v2 transactions on the tip / a known side block / an unknown parent; each transaction in the node's pool or missing; the peer answers the request for missing transactions correctly, with other transactions, with nothing, or fails; work sufficient or not; AddBlocks accepts or rejects; the peer still connected or already gone when the verdict is reached"
 func VerifH_C11_relay_outline() {
 	s, cm, pm, p := newC11()
 	s.config.SendTransactionsTimeout = time.Second
@@ -81,6 +81,11 @@ func VerifH_C11_relay_outline() {
 			return errors.New("stream reset")
 		}
 		return nil
+	}
+	// the peer may hang up before the node has reached its verdict: the
+	// verdict is reported all the same
+	if vapi.Bool("peer-already-gone") {
+		p.err = errors.New("connection closed")
 	}
 	err := s.handleRPC(types.NewSpecifier("RelayV2Outline"), nil, p)
 	_ = err
